@@ -366,7 +366,7 @@ func (a *apCtx) compute() *redSummary {
 		if len(ret.Results) == 0 {
 			continue
 		}
-		r := a.ap(ret.Results[0])
+		r := a.ap(unspill(ret, 0))
 		if r == "" {
 			continue
 		}
@@ -665,7 +665,7 @@ func runC20(c *Ctx) {
 		i := 0
 		for _, in := range instrsWhere(red, isReturn) {
 			ret := in.(*ssa.Return)
-			v := ret.Results[0]
+			v := unspill(ret, 0)
 			var leaves []ssa.Value
 			var collect func(v ssa.Value)
 			collect = func(v ssa.Value) {
